@@ -15,7 +15,7 @@ RECURSIVE Concat(_)
 Concat(ss) == IF ss = <<>> THEN <<>> ELSE Head(ss) \o Concat(Tail(ss))
 TypeList == Concat([i \in 1..Len(NamedList) |-> Wrappers(NamedList[i])]) \o << Li(Li(Li(Nm("Int")))), Li(Nn(Li(Li(Nn(Nm("E")))))) >>
 
-LeafToks == {"iS", "iOVER", "fFRAC", "sTXT", "sS", "bT", "eX", "eZ"}
+LeafToks == {"iS", "iOVER", "fFRAC", "sTXT", "sS", "bT", "eX", "eZ", "iZERO", "bF", "sEMPTY", "iMIN", "iMAX"}
 ASSUME \A s \in ScalarNames, t \in LeafToks : Cardinality(In(s, AsScalarTok(t))) = 1
 
 \* a canonical well-typed value / literal of each type
